@@ -88,7 +88,11 @@ func genC09(seed int64, tier string) *Scenario {
 
 func failPhase(rng *rand.Rand, hcTimeout time.Duration, until time.Duration) Phase {
 	var p Phase
-	switch rng.Intn(4) {
+	switch rng.Intn(6) {
+	case 4:
+		p = Phase{Kind: "cutbody", Status: pick(rng, 500, 503)}
+	case 5:
+		p = Phase{Kind: "stallbody", Status: pick(rng, 500, 503)}
 	case 0:
 		p = Phase{Kind: "status", Status: pick(rng, 500, 503, 404, 302)}
 	case 1:
